@@ -14,10 +14,16 @@ NOCASE = '0123456789_-あいう漢字日本\U0001F600\U0001F37A\U00010348'
 ASTRAL = '\U0001F600\U0001F37A\U00010348\U0002070E'
 
 
+UNICASE = 'ßẞςΣσſﬁİıÄäÖöÉéΩωЖж'      # letters on which lower(), casefold() and upper() disagree in interesting ways
+UNI_CI = [False]
+
+
 def gen_name(rng, ci, used):
     for _ in range(50):
         n = rng.pick([1, 2, 3, 5, 8, 12, 20, 40])
-        if ci:
+        if ci and UNI_CI[0]:
+            pool = ASCII.replace('.', '') + UNICASE
+        elif ci:
             pool = ASCII.replace('.', '') + NOCASE        # str.lower() modelled for ASCII only
         else:
             pool = rng.pick([ASCII, ASCII, ASCII + BMP, BMP + ASTRAL + ASCII])
@@ -96,7 +102,14 @@ class C06(Check):
 
     def gen(self, rng, tier, i):
         ci = rng.chance(0.4)
-        tree = gen_tree(rng, ci, rng.pick([0, 1, 2, 3, 4, 6]), [rng.pick([3, 10, 25, 60])])
+        # case-insensitive mode over letters with full-Unicode case mappings: Python's own str.lower() is the reference there
+        # (the executable model lower-cases ASCII only, so these cases are decided by the monitors, not by the model comparison)
+        unici = ci and rng.chance(0.3)
+        UNI_CI[0] = unici
+        try:
+            tree = gen_tree(rng, ci, rng.pick([0, 1, 2, 3, 4, 6]), [rng.pick([3, 10, 25, 60])])
+        finally:
+            UNI_CI[0] = False
         if rng.chance(0.2):
             # many entries with very short names: the tables are as dense as they can be
             nd, nf = rng.pick([7, 16, 40]), rng.pick([0, 9, 30])
@@ -109,9 +122,11 @@ class C06(Check):
             ivfc[1] = rng.randint(4, 12)
         mut = None
         if rng.chance(0.25):
-            mut = [rng.pick(['header', 'dm', 'fm', 'ivfc']), rng.getrandbits(16), rng.pick([0, 1, 0xFF, 0x18, 0x20, rng.randrange(256)])]
+            mut = [rng.pick(['header', 'dm', 'fm', 'fm', 'ivfc', 'fm64', 'fm64']), rng.getrandbits(16), rng.pick([0, 1, 0xFF, 0x18, 0x20, rng.randrange(256)])]
+        if unici:
+            mut = None
         return {'tree': tree, 'ivfc': ivfc, 'start': rng.pick([0, 0, 1, 0x10, 0x1234]), 'ci': int(ci), 'mut': mut,
-                'seed': rng.getrandbits(32)}
+                'seed': rng.getrandbits(32), 'unici': int(unici)}
 
     def corpus(self):
         return [{'fixture': 'romfs.bin', 'ci': 0}, {'fixture': 'romfs.bin', 'ci': 1}]
@@ -166,6 +181,9 @@ class C06(Check):
                 img[h + dmo + pos % dms] = val
             elif k == 'fm' and fms:
                 img[h + fmo + pos % fms] = val
+            elif k == 'fm64' and fms >= 0x20:
+                # the upper halves of the 64-bit offset / size fields of the first file entry (a reader that takes 32 bits shows)
+                img[h + fmo + (12 if pos % 2 else 20) + pos % 4] = val | 1
             elif k == 'ivfc' and case['ivfc']:
                 img[pos % 0x5C] = val
         file_bytes = b'\xEE' * start + bytes(img) + b'\xDD' * 7
@@ -267,6 +285,9 @@ class C06(Check):
                     key = 'romfs.lookup'
         real = ' | '.join(o.rstrip(' ') for o in outs)
         model = ' | '.join(m.rstrip(' ') for m in models)
+        if case.get('unici'):
+            model = real
+            info_d['ci:unicode-letters'] = 1
         nontrivial = bool(paths) or outs[0].startswith('e:')
         return CaseResult(real, model, mon, sig=str(hash(real)) if nontrivial else '', key=key, info=info_d)
 
